@@ -158,3 +158,21 @@ func vfCacheLen(c *Cache) int {
 	defer p.mutex.Unlock()
 	return len(*p.items)
 }
+
+// vfWrapCache builds a TokenCache (helpers.go) around the given cache: the wrapper's only *Cache field is found by type
+func vfWrapCache(c *Cache) *TokenCache {
+	tc := NewTokenCache()
+	v := reflect.ValueOf(tc).Elem()
+	for i := 0; i < v.NumField(); i++ {
+		f := v.Field(i)
+		if f.Type() == reflect.TypeOf((*Cache)(nil)) {
+			old := *(**Cache)(unsafe.Pointer(f.UnsafeAddr()))
+			if old != nil {
+				old.Close()
+			}
+			*(**Cache)(unsafe.Pointer(f.UnsafeAddr())) = c
+			return tc
+		}
+	}
+	panic("verif harness: TokenCache no longer wraps a *Cache")
+}
